@@ -120,6 +120,25 @@ func yamlMaps(v any) any {
 	return v
 }
 
+// containerDiscriminator replaces the value of every member "k" by c.
+func containerDiscriminator(v any, c any) any {
+	switch x := v.(type) {
+	case map[string]any:
+		for k, e := range x {
+			if k == "k" {
+				x[k] = c
+			} else {
+				x[k] = containerDiscriminator(e, c)
+			}
+		}
+	case []any:
+		for i := range x {
+			x[i] = containerDiscriminator(x[i], c)
+		}
+	}
+	return v
+}
+
 func reasonOnly(e *openapi3.SchemaError) string { return "E:" + e.SchemaField + ":" + e.Reason }
 
 func check(c Case) (o h.Outcome) {
@@ -460,6 +479,12 @@ func gen(t *rapid.T) Case {
 	v := schemagen.GenValue(s, depth+2).Draw(t, "value")
 	n := 0
 	v = mark(t, v, &n)
+	if _, isDisc := schemas["A"]; isDisc && rapid.IntRange(0, 3).Draw(t, "containerdisc") == 0 {
+		// the discriminating member holds a container with strings in it instead of a string
+		n++
+		m := fmt.Sprintf("%s%dsecretvalue", markPrefix, n)
+		v = containerDiscriminator(v, rapid.SampledFrom([]any{[]any{m}, map[string]any{"x": m}, []any{map[string]any{"y": []any{m}}}}).Draw(t, "dcontainer"))
+	}
 	entries := []string{"visit", "request", "response", "query", "header", "cookie", "response-header"}
 	entry := rapid.SampledFrom(entries).Draw(t, "entry")
 	multi := rapid.IntRange(0, 2).Draw(t, "multi") == 0
